@@ -446,6 +446,29 @@ pub fn workload(
             }
         }
     }
+    // RPSI: every (length residue, ignored-bit count) through every construction route - the owned and the borrowed
+    // entry points of the bit string are different code, and which pair meets which route must not be left to the
+    // rotation (whose phase depends on the number of worker threads)
+    if !tiny {
+        for l in 0..=9usize {
+            for ign in 0..=9u8 {
+                for h in 0..crate::drive::ROUTES {
+                    force.set(Some(h));
+                    go(
+                        ctx,
+                        &Cfg::Fb {
+                            kind: FbKind::Payload,
+                            sender: 3,
+                            media: 4,
+                            fci: Fci::Rpsi { pt: (l as u8 * 11 + ign) & 0x7f, bits: (0..l).map(|i| 0xa5u8.rotate_left(i as u32) | 1).collect(), overrun: ign },
+                            padding: if (l + ign as usize) % 3 == 0 { 4 } else { 0 },
+                        },
+                    );
+                }
+            }
+        }
+        force.set(None);
+    }
     // 2a. relational configurations, each through all four construction routes
     for c in relational_cfgs() {
         for h in 0..crate::drive::ROUTES {
